@@ -226,13 +226,18 @@ func RunCheck(p *Property, tier string) int {
 			total.Notes = append(total.Notes, res[s].hang)
 			// a hang is a violation of "terminates": family#index
 			lbl := strings.TrimPrefix(res[s].hang, "HANG ")
+			cls, det := "hang", fmt.Sprintf("case did not return within %ds", hang)
+			if strings.HasPrefix(lbl, "MEM ") {
+				lbl = strings.TrimPrefix(lbl, "MEM ")
+				cls, det = "memory", fmt.Sprintf("the process grew by more than %d MiB while the case ran", memLimit>>20)
+			}
 			fam, idx := lbl, int64(-1)
 			if k := strings.LastIndex(lbl, "#"); k >= 0 {
 				fam = lbl[:k]
 				idx, _ = strconv.ParseInt(lbl[k+1:], 10, 64)
 			}
 			total.NViolations++
-			total.Violations = append(total.Violations, Violation{Property: p.ID, Family: fam, Index: idx, Class: "hang", Case: describe(p, tier, fam, idx), Detail: fmt.Sprintf("case did not return within %ds", hang)})
+			total.Violations = append(total.Violations, Violation{Property: p.ID, Family: fam, Index: idx, Class: cls, Case: describe(p, tier, fam, idx), Detail: det})
 			continue
 		}
 		r := res[s].r
@@ -323,7 +328,7 @@ func RunCheck(p *Property, tier string) int {
 			fmt.Fprintf(os.Stderr, "HARNESS-ERROR non-deterministic replay %s\n", path)
 			return 2
 		}
-		if !ok && v.Class == "hang" {
+		if !ok && (v.Class == "hang" || v.Class == "memory") {
 			// the case returns promptly when replayed three times: the worker was stalled by the
 			// machine (load, memory), not by the case. Not a violation; the shard's remaining cases
 			// were not explored, which the evidence says (exhaustive=false).
@@ -512,8 +517,26 @@ func Replay(props map[string]*Property, path string) int {
 		}
 		fmt.Fprintln(os.Stderr, "family not found:", rf.Family)
 	}()
+	mem := make(chan struct{})
+	go func() {
+		base := residentBytes()
+		for {
+			time.Sleep(50 * time.Millisecond)
+			if residentBytes()-base > memLimit {
+				close(mem)
+				return
+			}
+		}
+	}()
 	select {
 	case <-done:
+	case <-mem:
+		if rf.Class == "memory" {
+			fmt.Println("REPRODUCED memory", rf.Case)
+			return 1
+		}
+		fmt.Println("unexpected memory growth")
+		return 2
 	case <-time.After(time.Duration(envInt("VERIF_HANG_S", hangDefault(p))) * time.Second):
 		if rf.Class == "hang" {
 			fmt.Println("REPRODUCED hang", rf.Case)
